@@ -93,6 +93,9 @@ fn build(body: &[(&'static str, Vec<u8>)], isr: usize, enable_bit: bool, ei: boo
     main.extend([0xFB, i0, 0x10, 0xFB, i1, 0x11, 0xFB, i2, 0x12]); // LD R0,.. ; LD R1,.. ; LD R2,..
     if enable_bit {
         main.extend([0xFB, 0x01, 0x5F, 0xF9]); // BITS (0xF9),1
+    } else if init == 2 {
+        // every enable bit except the key-edge one
+        main.extend([0xFB, 0x3E, 0x1F, 0xF9]); // ST-like: MOV (0xF9), 0x3E
     }
     if ei {
         main.push(0x08); // EI
@@ -379,6 +382,7 @@ fn family(quick: bool) -> Vec<Prog> {
     for s in seqs.iter().filter(|s| s.len() == 1) {
         let body: Vec<(&'static str, Vec<u8>)> = s.iter().map(|&i| b[i].clone()).collect();
         v.push(build(&body, 1, false, true, 1));
+        v.push(build(&body, 1, false, true, 2));
         v.push(build(&body, 1, true, false, 1));
     }
     v
